@@ -1,7 +1,7 @@
 (* C06 — UDP multiplexer wire codec is exact, segmentation-invariant and resynchronising.
    Statements only; proofs live in Proofs/UdpCodecProofs.v. *)
 From Coq Require Import List NArith.
-From TT Require Import Lib.Res Lib.BytesL Model.UdpCodec Spec.UdpWire Proofs.UdpCodecProofs Generated.UdpCodecFacts.
+From TT Require Import Lib.Res Lib.BytesL Model.UdpCodec Spec.UdpWire Proofs.UdpCodecProofs Proofs.UdpAddrProofs Generated.UdpCodecFacts.
 Import ListNotations.
 Open Scope N_scope.
 
@@ -52,6 +52,28 @@ Theorem encode_layout :
   forall s t payload, encode_packet s t payload = spec_encode s t payload.
 Proof. exact encode_packet_spec. Qed.
 Print Assumptions encode_layout.
+
+(* The 16-byte address field (both directions use it: the encoder writes it with put_fixed_size_ip,
+   the decoder reads it with get_fixed_size_ip). What is written is read back for every IPv4 address
+   except 0.0.0.1 and every IPv6 address that is ::1 or has a non-zero bit in its upper 96 bits; the
+   field cannot tell the remaining ones apart (PROTOCOL.md: IPv4 = twelve zero bytes + the address), and
+   the theorem says exactly how each is read: ::a.b.c.d as a.b.c.d, and 0.0.0.1 as ::1 *)
+Theorem address_field_round_trip :
+  (forall v, v < 2 ^ 32 -> v <> 1 ->
+     get_fixed_size_ip (put_fixed_size_ip {| fam := 4; ipv := v |}) = {| fam := 4; ipv := v |})
+  /\ (forall v, 2 ^ 32 <= v -> v < 2 ^ 128 ->
+     get_fixed_size_ip (put_fixed_size_ip {| fam := 6; ipv := v |}) = {| fam := 6; ipv := v |})
+  /\ get_fixed_size_ip (put_fixed_size_ip {| fam := 6; ipv := 1 |}) = {| fam := 6; ipv := 1 |}
+  /\ (forall v, v < 2 ^ 32 -> v <> 1 ->
+     get_fixed_size_ip (put_fixed_size_ip {| fam := 6; ipv := v |}) = {| fam := 4; ipv := v |})
+  /\ get_fixed_size_ip (put_fixed_size_ip {| fam := 4; ipv := 1 |}) = {| fam := 6; ipv := 1 |}.
+Proof.
+  split; [intros v H N1; rewrite get_put_v4 by exact H; apply N.eqb_neq in N1; rewrite N1; reflexivity|].
+  split; [exact get_put_v6_large|]. split; [vm_compute; reflexivity|].
+  split; [intros v H N1; rewrite get_put_v6_small by exact H; apply N.eqb_neq in N1; rewrite N1; reflexivity|].
+  vm_compute. reflexivity.
+Qed.
+Print Assumptions address_field_round_trip.
 
 (* Non-vacuity: a rejected record (L = 0), a record with empty name and payload, an accepted
    record from ::1, cut in the middle of a header. *)
